@@ -18,3 +18,97 @@ Theorem C17_partial_derivative : forall P n ks (a e : list R) (r : R),
                (nth (length ks - 1 - j) (eval_ext (tan_outs P n ks) (map Xreal (line_pt a e r ++ e))) Xnan).
 Proof. exact tan_line. Qed.
 Print Assumptions C17_partial_derivative.
+
+(** Part 2.  The assembled functional derivative is the gradient of the discretised functional
+    F rho = sum_k w_k sum_c phi_c((W_c rho)(., k))  (model of [HelmholtzEnergyFunctional::functional_derivative], see
+    theories/FuncDerivC17.v) — for every grid size G, number of density degrees of freedom J, number of contributions C,
+    numbers of weighted densities A c, all weights, all linear W, all B, all line-differentiable phi, all profiles rho:
+    whenever the weighted-density convolution and the back-convolution are adjoint against the perturbation delta with
+    respect to the integration weights.  ([is_derive] = Coquelicot's Fréchet derivative on R.) *)
+From Coquelicot Require Import Coquelicot.
+From FeosVerif Require Import FuncDerivC17 BondGraphC17.
+Local Open Scope R_scope.
+
+Theorem C17_gradient_of_discretised_functional :
+  forall (G J C : nat) (A : nat -> nat) (w wj : nat -> R) (W : nat -> (nat -> R) -> nat -> nat -> R)
+         (B : nat -> (nat -> nat -> R) -> nat -> R) (phi : nat -> (nat -> R) -> R) (dphi : nat -> (nat -> R) -> nat -> R),
+    (forall c rho delta t a k, W c (fun j => rho j + t * delta j) a k = W c rho a k + t * W c delta a k) ->
+    (forall c n n', (forall a, (a < A c)%nat -> n a = n' a) -> phi c n = phi c n') ->
+    (forall c n m, (c < C)%nat ->
+       is_derive (fun t => phi c (fun a => n a + t * m a)) 0 (sumn (A c) (fun a => dphi c n a * m a))) ->
+    forall rho delta : nat -> R,
+      adjoint_on G J C A w wj W B delta ->
+      is_derive (fun t => F G C w W phi (fun j => rho j + t * delta j)) 0
+                (sumn J (fun j => wj j * delta j * grad C W B dphi rho j)).
+Proof. exact gradient_along. Qed.
+Print Assumptions C17_gradient_of_discretised_functional.
+
+(** [adjoint_on] spelled out (so that the statement above can be read without the library):
+    sum_k w_k sum_a ps(a,k) (W_c delta)(a,k) = sum_j wj_j delta_j (B_c ps)_j  for every contribution and profile ps *)
+Theorem C17_adjoint_on_unfold : forall G J C A w wj W B delta,
+  adjoint_on G J C A w wj W B delta <->
+  (forall c (ps : nat -> nat -> R), (c < C)%nat ->
+     sumn G (fun k => w k * sumn (A c) (fun a => ps a k * W c delta a k)) = sumn J (fun j => wj j * delta j * B c ps j)).
+Proof. exact adjoint_on_unfold. Qed.
+Print Assumptions C17_adjoint_on_unfold.
+
+(** The operator of the Newton solver / implicit derivatives, B (d2phi/dn dn (W delta))
+    ([second_partial_derivatives] + [delta_functional_derivative]), is the derivative of the functional derivative
+    along the perturbation — no adjointness needed. *)
+Theorem C17_second_variation :
+  forall (G C : nat) (A : nat -> nat) (W : nat -> (nat -> R) -> nat -> nat -> R)
+         (B : nat -> (nat -> nat -> R) -> nat -> R) (dphi : nat -> (nat -> R) -> nat -> R),
+    (forall c rho delta t a k, W c (fun j => rho j + t * delta j) a k = W c rho a k + t * W c delta a k) ->
+    forall (d2phi : nat -> (nat -> R) -> nat -> nat -> R) (Bm : nat -> nat -> nat -> nat -> R),
+    (forall c ps j, B c ps j = sumn (A c) (fun a => sumn G (fun k => Bm c j a k * ps a k))) ->
+    (forall c n n' a, (forall b, (b < A c)%nat -> n b = n' b) -> dphi c n a = dphi c n' a) ->
+    (forall c n m a, (c < C)%nat -> (a < A c)%nat ->
+       is_derive (fun t => dphi c (fun b => n b + t * m b) a) 0 (sumn (A c) (fun b => d2phi c n a b * m b))) ->
+    forall (rho delta : nat -> R) (j : nat),
+      is_derive (fun t => grad C W B dphi (fun i => rho i + t * delta i) j) 0 (delta_grad C A W B d2phi rho delta j).
+Proof. exact second_variation. Qed.
+Print Assumptions C17_second_variation.
+
+(** Adjointness follows from the entry-wise identity  w_k W[(a,k),j] = wj_j B[j,(a,k)]  on the support of the
+    perturbation (what the harness checks entry by entry on the real Cartesian convolvers). *)
+Theorem C17_adjoint_of_matrix_identity :
+  forall (G J C : nat) (A : nat -> nat) (w wj : nat -> R) (Wm Bm : nat -> nat -> nat -> nat -> R) (delta : nat -> R),
+    (forall c a k j, (c < C)%nat -> (a < A c)%nat -> (k < G)%nat -> (j < J)%nat -> delta j <> 0 ->
+       w k * Wm c a k j = wj j * Bm c j a k) ->
+    adjoint_on G J C A w wj (Wmat J Wm) (Bmat G A Bm) delta.
+Proof. exact adjoint_of_matrix_identity. Qed.
+Print Assumptions C17_adjoint_of_matrix_identity.
+
+(** Part 3.  Bond integrals of chain molecules: the message-passing loop of [bond_integrals] / [delta_bond_integrals]
+    (model [run], theories/BondGraphC17.v).  Whenever it finishes, every directed bond was computed exactly once and only
+    after all the bonds it depends on; it finishes on every graph whose dependency relation admits a rank function
+    (every tree); on a graph with a dependency cycle it ends in the branch where the code panics. *)
+Theorem C17_bond_each_edge_once : forall (es : list (nat * nat)) (n : nat) (res : list nat),
+  run (length es) es n nil = Some res ->
+  NoDup res /\ (forall i, In i res <-> (i < length es)%nat) /\ length res = length es /\
+  (forall pre i post, res = pre ++ i :: post ->
+     forall e' : IE, In e' (deps es (i, nth i es (0%nat, 0%nat))) -> In (eid e') pre).
+Proof. exact run_each_edge_once. Qed.
+Print Assumptions C17_bond_each_edge_once.
+
+Theorem C17_bond_terminates : forall (es : list (nat * nat)) (n : nat) (h : nat -> nat),
+  wf_graph es n -> ranked es h -> exists res, run (length es) es n nil = Some res.
+Proof. exact run_terminates. Qed.
+Print Assumptions C17_bond_terminates.
+
+Theorem C17_bond_cycle_reaches_panic : forall (es : list (nat * nat)) (n : nat) (S : list nat) (i0 : nat),
+  closed_set es S -> In i0 S -> run (length es) es n nil = None.
+Proof. exact run_cycle_panics. Qed.
+Print Assumptions C17_bond_cycle_reaches_panic.
+
+(** executable forms used for the graphs of every run (gen/C17/bonds.v) *)
+Theorem C17_bond_tree_terminates : forall (n : nat) (bs : list (nat * nat)),
+  wf_graph_b (directed n bs) n = true -> ranked_b (directed n bs) (rank_guess (directed n bs)) = true ->
+  exists res, run_graph n bs = Some res.
+Proof. exact tree_terminates. Qed.
+Print Assumptions C17_bond_tree_terminates.
+
+Theorem C17_bond_cycle_panics : forall (n : nat) (bs : list (nat * nat)) (i0 : nat),
+  closed_set_b (directed n bs) (stuck_set n bs) = true -> In i0 (stuck_set n bs) -> run_graph n bs = None.
+Proof. exact cycle_panics. Qed.
+Print Assumptions C17_bond_cycle_panics.
